@@ -332,28 +332,7 @@ def check_who_may_write(chk, prog, cfg, rule="R1.1"):
              "register_type, Registry.type_table only through intern_or_get in intern_type_id, Interner.map only "
              "by entry() and Interner.vec only by push() in intern_or_get; Registry/Interner values are built only "
              "by their `new`; no &mut to these fields escapes; all fields private")
-    callers = {}
-    for p_ in prog._bodies_raw:
-        bb_ = prog.body(p_)
-        if bb_ is None:
-            continue
-        root_ = prog.closure_root.get(p_, p_) if hasattr(prog, "closure_root") else p_
-        for _, t_ in bb_.calls():
-            for tgt in (t_.get("resolved"), t_.get("callee")):
-                if tgt in prog._bodies_raw:
-                    callers.setdefault(mir.strip_generics(tgt), set()).add(mir.strip_generics(root_))
-
-    def owner_ok(owner, roots, seen_=()):
-        """the allowed writer itself, or a private helper all of whose callers are allowed writers (extract-function refactorings)"""
-        if owner in roots:
-            return True
-        if owner in seen_:
-            return False
-        fs = [f for f in prog.fn_list if mir.strip_generics(f["path"]) == owner]
-        if not fs or any(f.get("vis") == "pub" for f in fs):
-            return False
-        cs = callers.get(owner, set())
-        return bool(cs) and all(owner_ok(c, roots, seen_ + (owner,)) for c in cs)
+    owner_ok = lambda owner, roots: who.owner_ok(prog, owner, roots)
 
     for (adt, field), allowed in sorted(ALLOWED_MUT.items()):
         muts = who.field_mutations(prog, adt, field)
